@@ -19,6 +19,7 @@ package errorhandler
 import (
 	"encoding/xml"
 	"fmt"
+	"strings"
 
 	"github.com/elnormous/contenttype"
 	envoy_core "github.com/envoyproxy/go-control-plane/envoy/config/core/v3"
@@ -28,6 +29,7 @@ import (
 	"google.golang.org/genproto/googleapis/rpc/status"
 	"google.golang.org/grpc/codes"
 
+	"github.com/dadrus/heimdall/internal/heimdall"
 	"github.com/dadrus/heimdall/internal/x/stringx"
 )
 
@@ -46,6 +48,12 @@ func errorResponse(
 		Status: &envoy_type.HttpStatus{Code: envoy_type.StatusCode(httpCodeOverride)},
 	}
 
+	for name, values := range heimdall.ResponseHeadersFrom(decErr) {
+		deniedResponse.Headers = append(deniedResponse.Headers, &envoy_core.HeaderValueOption{
+			Header: &envoy_core.HeaderValue{Key: name, Value: strings.Join(values, ",")},
+		})
+	}
+
 	if verbose {
 		contentType := "text/html"
 
@@ -62,9 +70,9 @@ func errorResponse(
 
 		body, _ := format(contentType, decErr)
 
-		deniedResponse.Headers = []*envoy_core.HeaderValueOption{
-			{Header: &envoy_core.HeaderValue{Key: "Content-Type", Value: contentType}},
-		}
+		deniedResponse.Headers = append(deniedResponse.Headers, &envoy_core.HeaderValueOption{
+			Header: &envoy_core.HeaderValue{Key: "Content-Type", Value: contentType},
+		})
 		deniedResponse.Body = body
 	}
 
